@@ -4,6 +4,7 @@ import itertools
 from ..tree import *  # noqa
 from ..flow import Index
 from .. import boolpred as bp
+from .. import norm as norm_
 from .. import intcast
 from .c02 import binding_of_pat, is_lit, mname
 
@@ -51,17 +52,79 @@ def define_sites(ctx, f, role_of_step):
         if n.get("k") == "mcall" and callee(n) == DEFINE_SIGNALS:
             step_arg = peel(n["args"][2])
             role, step_atoms = role_of_step(step_arg, defs, P, ix, n)
-            cl = resolve(n["args"][3])
-            if cl.get("k") != "closure" or len(cl["params"]) != 1:
-                ctx.violation("R04.1", "%s:define_signals:filter-shape" % f["path"].split("::")[-1], n["sp"], "UNRECOGNISED: the filter is not a closure literal: %s" % show(n["args"][3]))
+            # the filter: a closure literal, a named predicate function, or one of several selected by the step (`if step == 0 { f } else { g }`)
+            alts_ = norm_.result_table(ix, n["args"][3], unwrap=())
+            multi = len(alts_) > 1
+            sel_guard = None
+            cl = None
+            if multi:
+                ctx.violation("R04.1", "%s:define_signals:filter-shape" % f["path"].split("::")[-1], n["sp"], "UNRECOGNISED: the filter is selected among %d alternatives: %s" % (len(alts_), show(n["args"][3]))) if False else None
+            flts = []
+            bad_alt = False
+            for conds_, leaf in alts_:
+                leaf = resolve(peel(leaf))
+                gpath = None
+                fdefs, latoms = defs, dict(step_atoms or {})
+                if leaf.get("k") == "closure" and len(leaf["params"]) == 1:
+                    cl = leaf
+                    pb = binding_of_pat(cl["params"][0])
+                    pbody = peel_block(cl["body"])
+                elif leaf.get("k") == "def" and leaf.get("path") in ctx.facts.lib("patronus").fns:
+                    g_ = ctx.facts.lib("patronus").fns[leaf["path"]][0]
+                    gp = [binding_of_pat(p_) for p_ in g_["params"]]
+                    if len(gp) != 1 or gp[0] is None:
+                        bad_alt = True
+                        break
+                    cl = {"k": "closure", "params": g_["params"], "body": g_["body"], "sp": g_.get("span")}
+                    pb = gp[0]
+                    pbody = peel_block(g_["body"])
+                    fdefs = local_defs(g_)
+                    # `let Uses { next, other, .. } = info.uses;`: the bindings are the fields
+                    for x_ in walk(g_["body"]):
+                        if x_.get("k") == "let" and x_["pat"].get("k") == "pstruct" and "init" in x_:
+                            fp_ = field_path(x_["init"])
+                            if fp_ and fp_[1] is not None and canon(fp_[1]) == canon(pb[1]):
+                                for fl_ in x_["pat"]["fields"]:
+                                    b_ = binding_of_pat(fl_["pat"])
+                                    if b_:
+                                        latoms[b_[1]] = ".".join(["info"] + fp_[2] + [fl_["name"]])
+                else:
+                    bad_alt = True
+                    break
+                body_, idiom = strip_membership_idiom(pbody, pb)
+                try:
+                    flt1 = bp.extract(body_, {pb[1]: "info"}, fdefs, latoms) if body_ is not None else ("const", True)
+                    sel = ("const", True)
+                    for c_, pol in conds_:
+                        if c_.get("k") == "armpat":
+                            pp = c_["pat"]
+                            while pp.get("k") in ("pref", "pderef"):
+                                pp = pp["pat"]
+                            if pp.get("k") in ("pwild", "pbind"):
+                                continue
+                            if pp.get("k") == "plit" and isinstance(pp.get("v"), int):
+                                c_ = {"k": "binary", "op": "==", "l": c_["scrut"], "r": {"k": "lit", "v": pp["v"], "ty": "u64"}, "ty": "bool"}
+                            else:
+                                raise bp.Opaque(c_.get("scrut", {}), "selection of the filter by a pattern")
+                        x_ = bp.extract(c_, {}, defs, step_atoms)
+                        sel = ("and", sel, x_ if pol else ("not", x_))
+                except bp.Opaque as e:
+                    ctx.violation("R04.1", "%s:define_signals:filter-opaque" % f["path"].split("::")[-1], n["sp"], "UNRECOGNISED (fail closed): filter `%s` contains `%s` (%s)" % (show(cl["body"])[:200], show(e.node), e.why))
+                    bad_alt = True
+                    break
+                flts.append((sel, flt1, idiom))
+            if bad_alt or not flts:
+                if not [v_ for v_ in ctx.violations if v_.get("key", "").endswith("filter-opaque")] or not flts:
+                    ctx.violation("R04.1", "%s:define_signals:filter-shape" % f["path"].split("::")[-1], n["sp"], "UNRECOGNISED: the filter is not a closure literal or a predicate function: %s" % show(n["args"][3])[:200])
                 continue
-            pb = binding_of_pat(cl["params"][0])
-            body_, idiom = strip_membership_idiom(peel_block(cl["body"]), pb)
-            try:
-                flt = bp.extract(body_, {pb[1]: "info"}, defs, step_atoms) if body_ is not None else ("const", True)
-            except bp.Opaque as e:
-                ctx.violation("R04.1", "%s:define_signals:filter-opaque" % f["path"].split("::")[-1], n["sp"], "UNRECOGNISED (fail closed): filter `%s` contains `%s` (%s)" % (show(cl["body"]), show(e.node), e.why))
-                continue
+            # one formula: OR over the alternatives of (selected AND filter)
+            flt = None
+            idiom = flts[0][2]
+            for sel, flt1, idi in flts:
+                term = flt1 if (sel == ("const", True)) else ("and", sel, flt1)
+                flt = term if flt is None else ("or", flt, term)
+                if (idi is None) != (idiom is None):
+                    idiom = None
             # guard: enclosing if conditions
             guard = ("const", True)
             bad = False
@@ -399,8 +462,20 @@ def count_paths(n, is_call, depth=0):
     if k == "match":
         c = count_paths(n["scrut"], is_call, depth)
         br = set()
+        sc = peel(n["scrut"])
+        comps = sc["es"] if sc.get("k") == "tuple" else [sc]
+        cpos = [i for i, x in enumerate(comps) if cond_tag(x) and cond_tag(x)[0] == "is_const"]
         for arm in n["arms"]:
-            br |= count_paths(arm["body"], is_call, depth)
+            tags = set()
+            if cpos:
+                # `match (.., state.is_const()) { (.., true) => .. }`: the arm runs for constant states only
+                pt = arm["pat"]
+                while pt.get("k") in ("pref", "pderef"):
+                    pt = pt["pat"]
+                sub = pt["subs"][cpos[0]] if pt.get("k") == "ptuple" and len(pt.get("subs", [])) == len(comps) else (pt if len(comps) == 1 else None)
+                if sub is not None and sub.get("k") == "plit" and isinstance(sub.get("v"), bool):
+                    tags.add("is_const" if sub["v"] else "not_const")
+            br |= {(a, frozenset(ta | tags)) for a, ta in count_paths(arm["body"], is_call, depth)}
         return {(a + b, frozenset(ta | tb)) for a, ta in c for b, tb in br}
     if k in ("for", "while", "loop", "closure"):
         inner = [x for x in walk(n) if is_call(x)]
